@@ -4,7 +4,7 @@
 // point whose name is in the stop set until the harness releases it; all other goroutines pass
 // through.  The harness realises a schedule (a list of thread keys) entry by entry: release the
 // thread, wait until every controlled thread is settled again (parked at a point, finished, or
-// blocked in the runtime: network read, WaitGroup, mutex), observe.
+// blocked on network input / a WaitGroup — never merely on a mutex inside the broker), observe.
 package fsched
 
 import (
@@ -35,6 +35,10 @@ type Ctl struct {
 	stops   map[string]bool
 	gen     uint64
 	order   []string // keys in registration order
+	// WaitSites: a goroutine blocked on a semaphore counts as settled only if its stack contains
+	// one of these substrings (the WaitGroup.Wait call sites that only other controlled threads
+	// can end).  Default: none — only network reads count.
+	WaitSites []string
 }
 
 // New creates a controller; controlled goroutines park at the points named in stops.
@@ -149,8 +153,13 @@ func (c *Ctl) Keys() []string {
 	return append([]string{}, c.order...)
 }
 
-// goroutine states from a full stack dump: id -> state ("running", "IO wait", "semacquire", ...)
-func goroutineStates() map[uint64]string {
+// goroutine states from a full stack dump: id -> (state, stack text)
+type gstate struct {
+	state string // "running", "IO wait", "semacquire", "sync.Mutex.Lock", ...
+	stack string
+}
+
+func goroutineStates() map[uint64]gstate {
 	buf := make([]byte, 1<<18)
 	for {
 		n := runtime.Stack(buf, true)
@@ -160,7 +169,7 @@ func goroutineStates() map[uint64]string {
 		}
 		buf = make([]byte, 2*len(buf))
 	}
-	res := map[uint64]string{}
+	res := map[uint64]gstate{}
 	for _, blk := range strings.Split(string(buf), "\n\n") {
 		if !strings.HasPrefix(blk, "goroutine ") {
 			continue
@@ -183,23 +192,41 @@ func goroutineStates() map[uint64]string {
 		if i := strings.IndexAny(st, ",]"); i >= 0 {
 			st = st[:i]
 		}
-		res[id] = st
+		res[id] = gstate{state: st, stack: blk}
 	}
 	return res
 }
 
-func blockedState(st string) bool {
-	switch st {
-	case "running", "runnable", "syscall", "":
-		return false
+// stablyBlocked: the goroutine waits for something only the harness or another controlled thread
+// can provide: network input (the netpoller) or a sync.WaitGroup.Wait at one of the declared call
+// sites (Ctl.WaitSites).  A goroutine that is merely
+// blocked for a moment inside the broker (a mutex in WritePacket, a channel hand-off, the
+// scheduler) is NOT settled: sampling then would catch it half-way through its step.
+func stablyBlocked(g gstate, sites []string) bool {
+	if g.state == "IO wait" {
+		return true
 	}
-	return true
+	// (the state of a goroutine already released from the semaphore is "runnable"; a WaitGroup
+	// that uncontrolled goroutines complete, e.g. Hooks.Stop, is not a stable place)
+	if (g.state == "semacquire" || g.state == "sync.WaitGroup.Wait") && strings.Contains(g.stack, "sync.(*WaitGroup).Wait") {
+		for _, site := range sites {
+			if strings.Contains(g.stack, site) {
+				return true
+			}
+		}
+	}
+	return false
 }
 
-// Settle waits until every controlled thread is parked at a point, finished, blocked according to
-// the optional predicate, or blocked in the runtime, and nothing moved between two looks.
-// It returns false on timeout (a hang).  The goroutine dump is only consulted for threads that
-// have been in none of the cheap states for a while (it stops the world).
+// Settle waits until every controlled thread is parked at a verifPoint, has finished, or is
+// blocked in a way that only the harness or another controlled thread can end, and nothing moved
+// between two looks.  It returns false on timeout (a hang).
+//
+// With a predicate, a thread that is neither parked nor finished counts as settled only if
+// blocked(key) holds (e.g. its in-memory connection is parked in Read): the runtime's view of the
+// goroutine is not consulted at all.  Without a predicate (real sockets) the goroutine dump is
+// consulted, and only "IO wait" (network read) and sync.WaitGroup.Wait at a declared site count (stablyBlocked), seen
+// in two consecutive dumps.
 func (c *Ctl) Settle(timeout time.Duration, blocked func(key string) bool) bool {
 	start := time.Now()
 	deadline := start.Add(timeout)
@@ -218,10 +245,14 @@ func (c *Ctl) Settle(timeout time.Duration, blocked func(key string) bool) bool 
 		}
 		c.mu.Unlock()
 		ok := true
-		var states map[uint64]string
+		var states map[uint64]gstate
 		for _, t := range unknown {
-			if blocked != nil && blocked(t.Key) {
-				continue
+			if blocked != nil {
+				if blocked(t.Key) {
+					continue
+				}
+				ok = false
+				break
 			}
 			if spins < 200 && time.Since(start) < 300*time.Microsecond {
 				ok = false
@@ -230,7 +261,7 @@ func (c *Ctl) Settle(timeout time.Duration, blocked func(key string) bool) bool 
 			if states == nil {
 				states = goroutineStates()
 			}
-			if !blockedState(states[t.gid]) {
+			if !stablyBlocked(states[t.gid], c.WaitSites) {
 				ok = false
 				break
 			}
